@@ -7,6 +7,19 @@ VERIF = os.path.dirname(os.path.dirname(os.path.abspath(__file__)))
 ALL = ["C%02d" % i for i in range(1, 21)]
 
 CHECKS = {
+    "C13": dict(
+        engine="Handshake12",
+        category="model_checking",
+        text=("TLC checks CookieFirst (no server emission other than the cookie request before the cookie-bearing ClientHello was "
+              "received) and NoTimerHVR on the flight machine; every model edge script is replayed on real endpoints and everything the "
+              "server emits is classified; a man in the middle rewrites the second ClientHello of a real client (cookie absent, wrong, "
+              "one bit off, truncated, extended, stale, removed; right cookie with altered random / session id / suites / extensions), "
+              "1..3 repetitions, with timer events in between, for DTLS 1.2 and 1.3; real-time silence after the cookie request."),
+        design_ref="DESIGN.md 3 (M1), 4 (C13)",
+        note=("Trusted: TLC, the wire classifier of the harness (record/handshake type bytes, HRR random). 'Otherwise identical' is read as "
+              "the RFC parameter lists; DTLS 1.2 changes to other extensions and alerts answering a bad hello are informational."),
+        technique="TLA+ model (Handshake12.tla) checked by TLC; edge scripts and ClientHello-pair classes replayed against a real server",
+    ),
     "C17": dict(
         engine="Handshake12",
         category="model_checking",
